@@ -546,6 +546,16 @@ func (e *Env) equal(a, b Val) *T {
 	if sa, ok := a.(VStr); ok {
 		return e.x.strEq(sa, b.(VStr))
 	}
+	// comparing an interface value with a concrete value: box the concrete one
+	if ia, ok := a.(VIface); ok {
+		if sb, ok := b.(VStruct); ok {
+			b = e.x.makeIface(e.st, sb, sb.Ty, ia.Ty)
+		}
+	} else if ib, ok := b.(VIface); ok {
+		if sa, ok := a.(VStruct); ok {
+			a = e.x.makeIface(e.st, sa, sa.Ty, ib.Ty)
+		}
+	}
 	p, ok1 := scalar(a)
 	q, ok2 := scalar(b)
 	if ok1 && ok2 {
@@ -673,6 +683,19 @@ func (e *Env) call(n *contract.Call) Val {
 		}
 		t := e.parseType(n.Args[1].(*contract.StrLit).Val)
 		return e.x.unbox(e.st, v, t)
+	case "captured":
+		// captured(f, "name"): current value of the variable `name` captured by closure value f
+		f, ok := e.eval(n.Args[0]).(VFunc)
+		if !ok {
+			e.fail("captured: first argument is not a function value")
+		}
+		return e.captured(f, n.Args[1].(*contract.StrLit).Val, n.Args[2].(*contract.StrLit).Val)
+	case "funcid":
+		fn, err := e.x.P.FindFunc(e.qual(n.Args[0].(*contract.StrLit).Val))
+		if err != nil {
+			e.fail("funcid: %v", err)
+		}
+		return VT{term.I(e.x.P.funcID(fn)), tyInt}
 	case "iterpos":
 		return e.iterPos()
 	case "lockheld":
@@ -855,4 +878,21 @@ func (e *Env) putBits(n *contract.Call) Val {
 	e.x.assumeOnce(term.ForallPat([]*T{j}, term.Eq(term.Select(na, j),
 		term.Ite(in, bitOfInt(v, term.Sub(term.Add(at, w), term.Add(j, term.I(1)))), term.Select(m.T, j))), [][]*T{{term.Select(na, j)}}))
 	return VMath{na}
+}
+
+// captured loads the variable `name` captured by the closure `fnref` whose environment is f.Env.
+func (e *Env) captured(f VFunc, fnref, name string) Val {
+	fn, err := e.x.P.FindFunc(e.qual(fnref))
+	if err != nil {
+		e.fail("captured: %v", err)
+	}
+	for i, fv := range fn.FreeVars {
+		if fv.Name() == name {
+			ptr := e.x.loadAt(e.st, fmt.Sprintf("c:%s", fnName(fn)), fmt.Sprintf(".%d", i), fv.Type(), f.Env, nil).(VT)
+			elem := fv.Type().(*types.Pointer).Elem()
+			return e.x.load(e.st, e.x.ptrAddr(ptr.T, elem))
+		}
+	}
+	e.fail("captured: %s has no free variable %s", fnref, name)
+	return nil
 }
